@@ -22,3 +22,22 @@ Print Assumptions c08_spec_alpha.
 Theorem c08_naive_statement_refuted : ~ spec_alpha_statement.
 Proof. exact spec_alpha_statement_false. Qed.
 Print Assumptions c08_naive_statement_refuted.
+
+(** M-level corollary (with Lemma A, Tree/LemmaAProofs.v): on the core fragment the tree walker itself reports the
+    same tables for a statement and for its admissibly renamed variant, whatever trivia surrounds the tokens. *)
+From SV Require Import Tree.Render Tree.LemmaA Tree.LemmaAProofs.
+
+Theorem c08_tables_alpha_on_core : forall rho n1 n2 e s,
+  admissible rho s ->
+  noise_ok n1 = true -> noise_ok n2 = true -> env_ok e = true ->
+  stmt_ok s = true -> sshape s = true ->
+  stmt_ok (rename_stmt rho (stmt_locals s) s) = true -> sshape (rename_stmt rho (stmt_locals s) s) = true ->
+  stmt_reads (analyze e false (r_stmt n1 (rename_stmt rho (stmt_locals s) s))) = stmt_reads (analyze e false (r_stmt n2 s)) /\
+  stmt_writes (analyze e false (r_stmt n1 (rename_stmt rho (stmt_locals s) s))) = stmt_writes (analyze e false (r_stmt n2 s)).
+Proof.
+  intros rho n1 n2 e s Ha H1 H2 He Hs Hq Hs' Hq'.
+  destruct (lemma_A_tables_restricted n1 e _ H1 He Hs' Hq') as [R1 W1].
+  destruct (lemma_A_tables_restricted n2 e s H2 He Hs Hq) as [R2 W2].
+  rewrite R1, R2, W1, W2, (spec_reads_alpha rho (e_cfg e) s Ha), spec_writes_rename. split; reflexivity.
+Qed.
+Print Assumptions c08_tables_alpha_on_core.
